@@ -190,3 +190,4 @@ def bound_cycle(acc, rnd, focus):
             return
     acc.count('threaded_deliveries_checked', len(sent['A']) + len(sent['B']))
     acc.klass('threaded_interleavings', S.interleaving_digest())
+
